@@ -234,8 +234,17 @@ def index_consistency(P, R):
                     a, b = find(tgt), find(val['name'])
                     if a != b:
                         parent[a] = b
-            classes = {find(v) for v in shifts | subs}
-            ok = len(classes) == 1 or (len(shifts) == 1 and (not subs or subs == shifts))
+            # a helper folded into f keeps its own variables (`ii@helper#n`): its walk is judged on its own, as it
+            # was when it was a function
+            def origin(v):
+                return v.split('@', 1)[1] if '@' in v and not v.startswith('__ret@') else ''
+            ok = True
+            for o in {origin(v) for v in shifts}:
+                sh = {v for v in shifts if origin(v) == o}
+                su = {v for v in subs if origin(v) == o} or ({v for v in subs} if o else set())
+                classes = {find(v) for v in sh | su}
+                if not (len(classes) == 1 or (len(sh) == 1 and (not su or su == sh))):
+                    ok = False
             R.ob('C07.TAB.1', ok, f, 'mask bit index %s and service table subscript %s are the same variable' % (sorted(shifts), sorted(subs)), key='index:%s' % f.name)
     R.floor('C07.TAB.1', 4)
 
